@@ -23,7 +23,7 @@ PROPS = {
         "assumptions": ["net/http delivers header and form values as documented; permissions are compared for equality only"],
     },
     "C10": {
-        "lean_modules": ["JrpcProofs.Props.C10", "JrpcProofs.Facts.Frames", "JrpcProofs.Facts.Codes", "JrpcProofs.Facts.Framing", "JrpcProofs.Facts.Interp"],
+        "lean_modules": ["JrpcProofs.Props.C10", "JrpcProofs.Facts.Call", "JrpcProofs.Facts.Naming", "JrpcProofs.Facts.Frames", "JrpcProofs.Facts.Codes", "JrpcProofs.Facts.Framing", "JrpcProofs.Facts.Interp"],
         "assumptions": [
             "gorilla/websocket delivers whole messages and closes the connection itself on WebSocket-level protocol violations",
             "encoding/json classifies each params element (shape, uint64-decodability) — computed by the harness with the real decoder",
@@ -58,7 +58,7 @@ PROPS = {
         ],
     },
     "C20": {
-        "lean_modules": ["JrpcProofs.Props.C20", "JrpcProofs.Facts.Reader", "JrpcProofs.Facts.Params"],
+        "lean_modules": ["JrpcProofs.Props.C20", "JrpcProofs.Facts.Reader", "JrpcProofs.Facts.Params", "JrpcProofs.Facts.Call", "JrpcProofs.Facts.Options"],
         "assumptions": [
             "net/http streams the upload body faithfully and a blocking body never returns (0, nil); which chunk sizes it returns is taken from the trace",
             "the rendezvous table has no observable trace without hooks: its theorem (C20_meet) is tied by the regenerated skeleton of ReaderParamDecoder and by forcing both arrival orders in the scenarios",
@@ -130,7 +130,7 @@ PROPS = {
         "timeout": 2400,
     },
     "C06": {
-        "lean_modules": ["JrpcProofs.Props.C06", "JrpcProofs.Props.Epoch", "JrpcProofs.Facts.Cancel", "JrpcProofs.Facts.Corr", "JrpcProofs.Facts.Frames", "JrpcProofs.Facts.Stream"],
+        "lean_modules": ["JrpcProofs.Props.C06", "JrpcProofs.Props.Epoch", "JrpcProofs.Facts.Call", "JrpcProofs.Facts.Cancel", "JrpcProofs.Facts.Corr", "JrpcProofs.Facts.Frames", "JrpcProofs.Facts.Stream"],
         "assumptions": [
             "the peer is honest: it writes xrpc.cancel [id] only for a caller (or subscription) whose context was cancelled; the client side of that is tied by the regenerated skeletons of doRequest and handleCtxAsync",
             "over HTTP the guarantee is net/http's request-context cancellation; the library-side facts (hreq.WithContext(ctx), ctx := r.Context()) are observed by the HTTP scenario",
